@@ -18,7 +18,24 @@ for ID in "$@"; do
     unset PEARL_COMPAT_CORPUS; [ -d $M/corpus ] && export PEARL_COMPAT_CORPUS=$M/corpus
     unit=""
     if grep -q "mod common" $M/demo.rs 2>/dev/null || grep -q "^use pearl" $M/demo.rs 2>/dev/null || grep -q "pearl::" $M/demo.rs; then cp $M/demo.rs $demo; else unit=1; fi
-    if [ -n "$unit" ]; then echo "UNIT-STYLE demo (needs manual placement)" >> $OUT; fi
+    if [ -n "$unit" ]; then
+      # in-crate demo: follow its own placement header ("copy this file to <path>", "append to the end of <file> the line: <line>", "--lib <filter>")
+      dst=$(grep -oE "copy this file to +[^ ]+" $M/demo.rs | head -1 | awk '{print $NF}')
+      host=$(grep -oE "append to the end of [^ ]+" $M/demo.rs | head -1 | awk '{print $NF}')
+      line=$(grep -oE "the line: +.*" $M/demo.rs | head -1 | sed 's/the line: *//')
+      filt=$(grep -oE "\-\-lib [a-z0-9_]+" $M/demo.rs | head -1 | awk '{print $2}')
+      if [ -n "$dst" ] && [ -n "$host" ] && [ -n "$line" ] && [ -n "$filt" ]; then
+        echo "UNIT-STYLE demo placed as $dst (+ '$line' in $host)" >> $OUT
+        place() { mkdir -p $(dirname $dst); cp $M/demo.rs $dst; printf '\n%s\n' "$line" >> $host; }
+        place; cargo test --offline --lib $filt > $OUT.clean.log 2>&1; echo "demo_clean_rc=$?" >> $OUT
+        git checkout -q -- . && git clean -fdq tests src
+        git apply $M/patch.diff || { echo "patch_apply_failed" >> $OUT; continue; }
+        place; cargo test --offline --lib $filt > $OUT.mut.log 2>&1; echo "demo_mutant_rc=$?" >> $OUT
+        git checkout -q -- . && git clean -fdq tests src
+      else
+        echo "UNIT-STYLE demo (needs manual placement)" >> $OUT
+      fi
+    fi
     # demo without patch
     if [ -z "$unit" ]; then
       cargo test --offline --test zz_demo_${ID}_$n > $OUT.clean.log 2>&1; echo "demo_clean_rc=$?" >> $OUT
